@@ -187,6 +187,7 @@ func main() {
 	if o.Replay == "" {
 		quotaProbe(rep, w, o.Driver)
 		writtenProbe(rep, w, o.Driver, dir)
+		sizeProbe(rep, w, o.Driver)
 	}
 	rep.Finish()
 }
@@ -597,6 +598,57 @@ func writtenProbe(rep *hx.Report, w *world.World, driver, dir string) {
 					return
 				}
 			}
+		}
+	}
+}
+
+// sizeProbe: max_size bounds the message, not its transfer: a message of exactly max_size octets is accepted and filed, one
+// octet more is refused — also when many of its lines begin with a dot, which a conforming client doubles on the wire.
+func sizeProbe(rep *hx.Report, w *world.World, driver string) {
+	const max = 900
+	w.Login("size17@example.com").Close()
+	for k, dots := range []int{0, 1, 5, 40} {
+		for _, d := range []int{-1, 0, 1, 6} {
+			tok := fmt.Sprintf("c17size%dx%d", k, d+1)
+			head := "From: s@example.org\r\nTo: size17@example.com\r\nSubject: " + tok + "\r\n\r\n"
+			body := strings.Repeat(".a line that begins with a dot\r\n", dots)
+			want := max + d
+			if len(head)+len(body)+2 > want {
+				continue
+			}
+			msg := head + body + strings.Repeat("x", want-len(head)-len(body)-2) + "\r\n"
+			cfg := config.DefaultConfig()
+			cfg.LMTP.Timeout = 3
+			cfg.LMTP.MaxSize = max
+			out := w.LMTPCfg(cfg, "LHLO c\r\nMAIL FROM:<s@example.org>\r\nRCPT TO:<size17@example.com>\r\nDATA\r\n"+world.DotStuff(msg)+".\r\nQUIT\r\n")
+			lines := strings.Split(strings.TrimRight(out, "\r\n"), "\r\n")
+			got := "---"
+			if len(lines) >= 10 && len(lines[9]) >= 3 {
+				got = lines[9][:3]
+			}
+			m, err := hx.RunModel(driver, []string{fmt.Sprintf("p.size %d %d", max, len(msg))})
+			if err != nil {
+				rep.Violate("broken-correspondence", "driver", err.Error(), nil)
+				return
+			}
+			rep.Case(fmt.Sprintf("size|%d|%d", dots, d), true)
+			accepted := strings.HasPrefix(got, "2")
+			if accepted != (m[0] == "true") {
+				rep.Violate("impl-violation", "policy vs Model/Policy (Props.C17.size_limit)", fmt.Sprintf("max_size %d, a message of %d octets of which %d lines begin with a dot (doubled on the wire): the reply after the dot is %s, the documented rule (size ≤ max_size) says accepted=%s", max, len(msg), dots, got, m[0]), []string{"size " + tok})
+				return
+			}
+			c := w.Login("size17@example.com")
+			c.Cmd("EXAMINE INBOX")
+			filed := false
+			for _, l := range c.Cmd("SEARCH SUBJECT " + tok).Untagged {
+				filed = filed || len(strings.Fields(l)) > 2
+			}
+			c.Close()
+			if accepted != filed {
+				rep.Violate("impl-violation", "policy vs Model/Policy (Props.C17.size_limit / filing_exact)", fmt.Sprintf("max_size %d, message %s of %d octets: reply %s, filed: %v", max, tok, len(msg), got, filed), []string{"size " + tok})
+				return
+			}
+			rep.Hit("size-probe:" + got)
 		}
 	}
 }
